@@ -48,6 +48,27 @@ class Gen:
         return [b]
 
     def grammar(self):
+        """Retries until the grammar needs at most 25 distinct letters (every terminal is then a fresh letter, which is what
+        makes the grammar LL(1)); unreachable non-terminals are hooked into the start symbol by an optional part."""
+        while True:
+            self.next_t = 0
+            g = self.grammar_once()
+            if self.next_t >= 24:
+                continue
+            reach, todo = {0}, [0]
+            while todo:
+                a = todo.pop()
+                for b in nt_refs(dict(prods=[p for p in g['prods'] if p[0] == a])).keys():
+                    if b not in reach:
+                        reach.add(b); todo.append(b)
+            first = g['prods'][0][1][0]
+            for a in range(g['n']):
+                if a not in reach:
+                    first.insert(len(first) - 1, ('o', [[self.fresh(), ('n', a, a in self.force_clip)]]))
+            g['nt_types'] = [a for a, fl in nt_refs(g).items() if a != 0 and fl and all(fl) and self.rng.random() < 0.7]
+            return g
+
+    def grammar_once(self):
         rng = self.rng
         n = rng.randint(1, 3)
         # every third grammar: one non-terminal is clipped at every reference (and may then carry a %nt_type)
@@ -55,10 +76,10 @@ class Gen:
         prods = []
         for a in range(n):
             alts = []
-            for _ in range(rng.randint(1, 3)):
+            for _ in range(rng.randint(1, 2 if n > 1 else 3)):
                 alt = [self.fresh()]
                 for _ in range(rng.randint(0, 3)):
-                    r = rng.randrange(7)
+                    r = rng.randrange(8)
                     if r == 0:
                         alt.append(self.fresh())
                     elif r == 1:
@@ -71,16 +92,19 @@ class Gen:
                         # group with two alternatives, each starting with its own fresh terminal
                         alt.append(('g', self.body(n, a, True) + self.body(n, a, True)))
                     else:
-                        # nested: optional containing a repetition
+                        # nested: a repetition / optional directly inside a repetition / optional body (all four forms),
+                        # the inner one in the middle or at the end of the body
                         inner = self.body(n)
-                        inner[0].append(('r', self.body(n)))
-                        alt.append(('o', inner))
+                        nested = (rng.choice(['r', 'r', 'o']), self.body(n))
+                        if rng.random() < 0.5:
+                            inner[0].append(nested)
+                        else:
+                            inner[0].insert(1, nested)
+                        alt.append((rng.choice(['o', 'r', 'r']), inner))
                 alt.append(self.fresh())
                 alts.append(alt)
             prods.append((a, alts))
-        g = dict(n=n, prods=prods)
-        g['nt_types'] = [a for a, fl in nt_refs(g).items() if a != 0 and fl and all(fl) and rng.random() < 0.7]
-        return g
+        return dict(n=n, prods=prods)
 
 
 NAMES = ['Start', 'Beta', 'Gamma']
